@@ -511,6 +511,25 @@ func init() {
 			implB := runAPI("StdBytes", []string{h, "7071"})
 			cases = append(cases, Case{Line: "StdBytes " + h + " 7071", Impl: implB, Class: "bytes"})
 			cases = append(cases, specCase("bytes:spec", "specSanitize "+h, strings.TrimPrefix(strings.TrimPrefix(implB, "7071"), "-")+dashIfEmpty(implB, "7071")))
+			// the appending form with every small spare capacity behind a non-empty destination: the result does not depend on
+			// how much room the destination happens to have (a replacement character is longer than the byte it replaces)
+			for spare := 0; spare <= 5; spare++ {
+				s.Evaluations++
+				s.Classes["bytes:spare"]++
+				pre := []byte("pq")
+				dst := append(make([]byte, 0, len(pre)+spare), pre...)
+				in := append([]byte(nil), d...)
+				got := guard(func() string {
+					v := rjson.StdLibCompatibleStringBytes(in, dst)
+					if !bytes.HasPrefix(v, pre) {
+						return "PREFIX-LOST " + hx(v)
+					}
+					return hx(v[len(pre):])
+				})
+				if got != implS {
+					s.Violation(fmt.Sprintf("StdBytes %s dst=pq spare=%d", h, spare), got, implS, "bytes:spare", "StdLibCompatibleStringBytes depends on the destination's spare capacity")
+				}
+			}
 			// identity on valid UTF-8, idempotence
 			s.Evaluations++
 			out := rjson.StdLibCompatibleString(string(d))
